@@ -14,36 +14,44 @@ from urllib.parse import unquote
 from lib.common import enc_str, enc_ostr, enc_strs, dec_str, dec_ostr, dec_strs, model_run, src_hashes
 
 PID = "C12"
-RULE = ("generated multi-document Sphinx projects (directory depth 0-3, .md and .rst documents, headings with duplicate "
-        "titles, (label)= targets on headings and paragraphs, extra non-document files) built in-process with the html "
-        "builder; every link spelling (x.md, ./, ../, non-minimal ../d/, leading /, without extension, project:, path:, "
-        "#label, explicit text with nested markup vs empty text, missing documents/anchors/labels/files, quirk "
-        "spellings). correspondence: extracted Coq model (run_link) vs the reference node of the resolved doctree + the "
-        "warning stream, per link; plus the path functions (normpath, join, docname_join, relative_uri, relfn2path, "
-        "path2doc, scheme regex) vs posixpath/Sphinx/re on random strings. search: intent-based oracle (the generator "
-        "knows which page/section/label/file each link is meant to reach) vs the href, link text and warnings of the "
-        "WRITTEN HTML pages. non-trivial = link whose source or target lies below the root directory, or has an anchor, "
-        "or is missing; distinct by (source dir depth, target dir depth, spelling, scheme, text form, intent kind)")
+RULE = ("generated multi-document Sphinx projects (directory depth 0-3, .md and .rst documents, index documents in "
+        "sub-directories, names with non-ASCII letters and spaces, up to three equal heading titles, (label)= targets on "
+        "headings and paragraphs incl. case variants beyond ASCII, extra non-document files, files pulled in by {include} with "
+        ":relative-docs:) built in-process with the html or the dirhtml builder; every link spelling (x.md, ./, ../, "
+        "non-minimal ../d/, leading /, without extension (+#anchor), project:, path:, #label, explicit text with nested "
+        "markup vs empty text, missing documents/anchors/labels/files, %00, over-long, quirk spellings). correspondence: "
+        "extracted Coq model (run_link) vs the reference node of the resolved doctree + the warning stream, per link; plus the "
+        "path functions (normpath, join, docname_join, relative_uri, relpath, relfn2path, path2doc, get_target_uri of both "
+        "builders, str.lower, scheme regex) vs posixpath/Sphinx/re exhaustively on small segment lists (incl. empty, '.', '..' "
+        "segments at every position, trailing and leading slashes) and on random strings. search: intent-based oracle (the "
+        "generator knows which page/section/label/file each link is meant to reach) vs the href, link text and warnings of "
+        "the WRITTEN HTML pages. non-trivial = link whose source or target lies below the root directory, or has an anchor, or "
+        "is missing; distinct by (source dir depth, target dir depth, spelling, scheme, text form, intent kind, included)")
 TRUSTED = ["coq/XRef/Path.v, coq/XRef/XRefModel.v are hand transcriptions of posixpath/pathlib/Sphinx path functions and of "
-           "render_link*/ResolveAnchorIds/MystReferenceResolver (checked by correspondence, not proved)",
-           "Sphinx 8.2 environment, html builder and writer (pages, _downloads copies) as oracles",
+           "render_link*/_handle_relative_docs/ResolveAnchorIds/MystReferenceResolver (checked by correspondence, not proved)",
+           "Sphinx 8.2 environment, html/dirhtml builders and writer (pages, _downloads copies) as oracles",
            "generated names: ASCII [A-Za-z0-9._-] plus NFC non-ASCII letters and a space; observed URIs are compared after "
            "urllib.parse.unquote (quote is injective on them), markdown-it normalizeLink followed by normalizeLinkText is the "
-           "identity on them (exercised: a lost decode shows as a disagreement); str.lower is ASCII lower on label names"]
+           "identity on them (exercised: a lost decode shows as a disagreement); str.lower from the regenerated table below U+0250",
+           "dirhtml get_target_uri is modelled on the '/'-components of the docname (endswith('/index') <=> >= 2 components, last "
+           "'index'); compared with the real method on all docnames over {a,index,b,''} up to 3 components"]
 ORACLES = {
     "O_sphinx_env": "env.all_docs, clean_astext(env.titles), env.metadata[doc]['myst_slugs'] (slug -> section id, title), "
                     "std labels/anonlabels and the files below srcdir are what the project description says: compared on every "
                     "generated project (bucket env-check)",
-    "O_builder_uri": "StandaloneHTMLBuilder.get_target_uri(docname) = docname + '.html': checked through the written pages "
-                     "(search resolves every href against the output directory and requires the file to exist)",
+    "O_builder_uri": "get_target_uri of StandaloneHTMLBuilder / DirectoryHTMLBuilder = target_uri: exhaustive small docnames "
+                     "(bucket pathfn:exhaustive:target_uri) and through the written pages (search resolves every href against the "
+                     "page URI and requires the output file to exist)",
     "O_fs": "Path.is_file/os.access see exactly the generated files; no symbolic links below the scratch dir (resolve() = lexical)",
     "O_other_domains": "std objects of other types, other domains' resolve_any_xref and intersphinx return nothing in the "
                        "generated projects (the model instance run_link_plain); checked implicitly by the per-link comparison",
-    "O_posixpath": "posixpath.normpath/join, pathlib parsing, sphinx docname_join/relative_uri: model vs library on random strings "
-                   "(bucket pathfn:*)",
+    "O_posixpath": "posixpath.normpath/join/relpath, pathlib parsing, sphinx docname_join/relative_uri: model vs library, exhaustive "
+                   "on small segment lists + random strings (buckets pathfn:*)",
+    "O_include": "MockIncludeDirective sets md_env['relative-docs'] = (prefix, dir of the including source, dir of the included "
+                 "file): exercised by every link of a generated fragment",
 }
 ASSUMPTIONS = ["default MyST configuration except myst_heading_anchors=3 (all_links_external etc. off; url_schemes default)",
-               "relative-docs of the include directive not modelled (links inside included files)",
+               "one level of {include} (a fragment including another fragment is not generated)",
                "single-process builds; scratch directory without symbolic links"]
 
 ANSI = re.compile(r"\x1b\[[0-9;]*m")
@@ -371,6 +379,9 @@ def gen_links(rng, desc):
                                       "style": sty})
             elif r < 0.70:                                 # ---- built-in label
                 add(src, "inline", rng.choice(["genindex", "#genindex", "search"]), {"kind": "builtin"})
+            elif r < 0.82 and rng.random() < 0.08:         # ---- remote download: handed to Sphinx unchanged
+                url = "https://example.org/" + rng.choice(["x.zip", "d/data.tar.gz"])
+                add(src, rng.choice(["inline", "auto"]), "path:" + url, {"kind": "remote", "url": url})
             elif r < 0.82 and desc["extras"]:              # ---- non-document file
                 e = rng.choice(desc["extras"])
                 sp, style = spell(rng, fd, e["path"])
@@ -1200,6 +1211,8 @@ def expect(desc, src_doc, l):
                 "text": l["text_sig"] if explicit else it["sect"], "missing": 0}
     if k == "builtin":
         return None
+    if k == "remote":
+        return {"url": it["url"], "text": l["text_sig"] if explicit else "c(%s)" % it["url"], "missing": 0}
     if k == "file":
         return {"download": it["path"], "missing": 0,
                 "text": l["text_sig"] if explicit else "c(%s)" % shown_path(desc, src_doc, l, it["path"])}
@@ -1274,6 +1287,9 @@ def check_link(ctx, desc, obs, src_doc, l):
                     or obs["outfiles"].get(tgt) != want:
                 fail("uri", "the href does not lead to a copy of the file", "_downloads/<dir>/%s with the file's content" % posixpath.basename(ex["download"]),
                      {"href": href, "resolved": tgt, "copy_present": tgt in obs["outfiles"]})
+    elif "url" in ex:
+        if href != ex["url"]:
+            fail("uri", "a remote download link must keep its URL", ex["url"], href)
     elif ex.get("doc"):
         want_uri = canon_uri(page_uri(desc, ex["doc"]))
         if href is None:
@@ -1320,9 +1336,10 @@ def search_projects(ctx, descs, obss):
     for desc, obs in zip(descs, obss):
         if "exception" in obs:
             ctx.search_cases += 1
-            # find the link that causes it
+            # find the link that causes it (for the first few failing projects only: one build per link)
             culprit = None
-            for d in desc["docs"]:
+            n_exc = sum(1 for f in ctx.failures if f["signature"].startswith("exception:"))
+            for d in (desc["docs"] if n_exc < 2 else []):
                 for l in d["links"]:
                     o2 = build_project(reduce_desc(desc, d["docname"], l["n"]))
                     if "exception" in o2:
@@ -1395,16 +1412,18 @@ def replay(ctx, data):
     return 0 if ok else 1
 
 
-LEVEL_TEXT = ("Proof (Coq) about a hand-written model of the link classifier (render_link, render_link_project/_path/_unknown), "
-              "ResolveAnchorIds' forwarding and MystReferenceResolver, over transcriptions of posixpath.normpath/join, pathlib "
-              "parsing, Sphinx relfn2path/path2doc/docname_join/relative_uri: relative_uri round-trips for all normal segment "
-              "lists (any directory depth); every listed spelling of a path normalises to the intended file/docname; "
-              "doc.md#slug is looked up in the target document's slug table, a miss gives one warning and the fallback id; "
-              "explicit text is kept, otherwise the target's title; an unresolved destination gives exactly one xref_missing "
-              "(partial: not for the path: scheme, see the refuted companion). Tied to the code by per-link differential "
-              "correspondence on generated multi-document Sphinx projects and by a direct intent-based oracle on the written HTML.")
+LEVEL_TEXT = ("Proof (Coq) about a hand-written model of the link classifier (render_link, render_link_project/_path/_unknown, "
+              "_handle_relative_docs), ResolveAnchorIds' forwarding and MystReferenceResolver, over transcriptions of "
+              "posixpath.normpath/join/relpath, pathlib parsing, Sphinx relfn2path/path2doc/docname_join/relative_uri and "
+              "get_target_uri of the html and dirhtml builders: relative_uri round-trips for all page-URI paths of both builders "
+              "(any directory depth, index documents); every listed spelling of a path normalises to the intended file/docname "
+              "(also docname#anchor); a destination inside an {include}d file is rewritten to a spelling of the same file; "
+              "doc.md#slug is looked up in the target document's slug table, a miss gives one warning, the fallback id and a "
+              "fallback text; explicit text is kept, otherwise the target's title; exactly one xref_missing iff the destination is "
+              "unresolved, on every route. Premises shown necessary by _refuted witnesses. Tied to the code by per-link "
+              "differential correspondence on generated multi-document Sphinx projects, exhaustive small-input correspondence "
+              "of the library functions, and a direct intent-based oracle on the written HTML.")
 LEVEL_NOTE = ("Partial: the Sphinx environment (all_docs, titles, myst_slugs, std labels), the file system, other domains and "
               "intersphinx are oracle hypotheses (O_sphinx_env etc.), each exercised on every generated project; the model is a "
               "transcription checked by correspondence, not proved equal to the Python code; default configuration only. "
-              "Open finding: <path:missing-file> is reported by Sphinx as download.not_readable, not as myst.xref_missing "
-              "(C12_missing_once_path_refuted).")
+              "No open finding (five repaired: 4baaac6, 30d027a, 5310f28, 3257367, 9a2ab65).")
